@@ -3,19 +3,25 @@
 (* S-layer for C19: the two loops of pymbolic/algorithm.py as state        *)
 (* machines (one TLA+ step = one loop iteration), with their loop          *)
 (* invariants, result properties and termination measures, plus the        *)
-(* Cooley-Tukey recursion as a one-step machine.  Bug = "none" is the      *)
-(* algorithm of the code; every other value is a negative control that     *)
-(* MUST make TLC report the named invariant violated (see C19_Algo_*.cfg). *)
+(* Cooley-Tukey recursion as a one-step machine.  The variable bug is      *)
+(* fixed by Init: bug = "none" is the algorithm of the code, for which the *)
+(* invariants below must hold (C19_Algo.cfg); every other value is a       *)
+(* negative control for which TLC MUST report the matching Ctl_*           *)
+(* invariant violated (C19_Algo_controls.cfg, run with -continue).         *)
 (*                                                                         *)
 (*  alg = "pow"    integer_power over Z_7, 2x2 matrices over Z_5 and words *)
 (*  alg = "euclid" extended_euclidean over -R..R                           *)
 (*  alg = "fft"    fft over Z_p for the lengths in FFTLens                 *)
 (***************************************************************************)
 EXTENDS C19_Arith
-CONSTANTS Bug, MaxN, R, FFTLens
-VARIABLES alg, pc, in, s
+CONSTANTS Bugs, MaxN, R, FFTLens
+VARIABLES alg, pc, in, s, bug
 
-vars == << alg, pc, in, s >>
+vars == << alg, pc, in, s, bug >>
+Bug == bug
+PowBugs == {"none", "drop_last", "no_square", "accept_negative"}
+EuBugs == {"none", "swap_forgot", "wrong_T"}
+FFTBugs == {"none", "stride", "twiddle"}
 
 (**************************** integer_power ********************************)
 PowInputs ==
@@ -23,16 +29,16 @@ PowInputs ==
     \cup { [mon |-> "mat", m |-> 5, x |-> xx] : xx \in { << 1, 1, 1, 0 >>, << 2, 3, 1, 4 >>, << 0, 1, 0, 0 >> } }
     \cup { [mon |-> "word", m |-> 0, x |-> xx] : xx \in { << 1 >>, << 1, 2 >> } }
 
-PowInit == /\ alg = "pow" /\ pc = "start"
+PowInit == /\ alg = "pow" /\ pc = "start" /\ bug \in Bugs \cap PowBugs
            /\ in \in { [mon |-> i.mon, m |-> i.m, x |-> i.x, n |-> n] : i \in PowInputs, n \in -2..MaxN }
            /\ s = [aux |-> << >>, x |-> << >>, n |-> 0, mults |-> 0]
 Mul(a, b) == MMul(in.mon, in.m, a, b)
 PowStart == /\ pc = "start"
             /\ IF in.n < 0 /\ Bug # "accept_negative" THEN pc' = "refused" /\ UNCHANGED s
                ELSE pc' = "loop" /\ s' = [aux |-> MOne(in.mon, in.m), x |-> in.x, n |-> in.n, mults |-> 0]
-            /\ UNCHANGED << alg, in >>
+            /\ UNCHANGED << alg, in, bug >>
 PowLoop ==
-    /\ pc = "loop" /\ UNCHANGED << alg, in >>
+    /\ pc = "loop" /\ UNCHANGED << alg, in, bug >>
     /\ IF s.n > 0
        THEN LET odd  == (s.n % 2) = 1
                 aux2 == IF odd THEN Mul(s.aux, s.x) ELSE s.aux
@@ -48,28 +54,28 @@ PowLoop ==
        ELSE pc' = "done" /\ UNCHANGED s
 
 \* loop invariant: aux * x^n = x0^n0
-PowLoopInv == (alg = "pow" /\ pc = "loop" /\ in.n >= 0) =>
+PowLoopInvB == (alg = "pow" /\ pc = "loop" /\ in.n >= 0) =>
                  Mul(s.aux, Pow(in.mon, in.m, s.x, s.n)) = Pow(in.mon, in.m, in.x, in.n)
-PowResult == (alg = "pow" /\ pc = "done" /\ in.n >= 0) => s.aux = Pow(in.mon, in.m, in.x, in.n)
-PowRefusal == (alg = "pow") => ((pc = "refused") => in.n < 0) /\ ((pc \in {"loop", "done"}) => in.n >= 0)
+PowResultB == (alg = "pow" /\ pc = "done" /\ in.n >= 0) => s.aux = Pow(in.mon, in.m, in.x, in.n)
+PowRefusalB == (alg = "pow") => ((pc = "refused") => in.n < 0) /\ ((pc \in {"loop", "done"}) => in.n >= 0)
 \* "using only multiplications", and few of them: at most 2*bitlength(n)
 BitLen(n) == IF n = 0 THEN 0 ELSE CHOOSE k \in 1..31 : IPowG(2, k - 1) <= n /\ (k = 31 \/ n < IPowG(2, k))
-PowCost == (alg = "pow" /\ pc \in {"loop", "done"} /\ in.n >= 0) => s.mults <= 2 * BitLen(in.n)
+PowCostB == (alg = "pow" /\ pc \in {"loop", "done"} /\ in.n >= 0) => s.mults <= 2 * BitLen(in.n)
 \* termination: n strictly decreases while looping
 PowDecreases == [][(alg = "pow" /\ pc = "loop" /\ pc' = "loop") => s'.n < s.n]_vars
 
 (**************************** extended_euclidean ***************************)
-EuInit == /\ alg = "euclid" /\ pc = "start"
+EuInit == /\ alg = "euclid" /\ pc = "start" /\ bug \in Bugs \cap EuBugs
           /\ in \in { [q |-> q, r |-> r] : q \in -R..R, r \in -R..R }
           /\ s = [q |-> 0, r |-> 0, QQ |-> << 0, 0 >>, RR |-> << 0, 0 >>, sw |-> FALSE]
-EuStart == /\ pc = "start" /\ UNCHANGED << alg, in >>
+EuStart == /\ pc = "start" /\ UNCHANGED << alg, in, bug >>
            /\ pc' = "loop"
            \* "if norm(q) < norm(r): p, a, b = extended_euclidean(r, q); return p, b, a"
            /\ LET sw == Abs(in.q) < Abs(in.r) IN
               s' = [q |-> (IF sw THEN in.r ELSE in.q), r |-> (IF sw THEN in.q ELSE in.r),
                     QQ |-> << 1, 0 >>, RR |-> << 0, 1 >>, sw |-> sw]
 EuLoop ==
-    /\ pc = "loop" /\ UNCHANGED << alg, in >>
+    /\ pc = "loop" /\ UNCHANGED << alg, in, bug >>
     /\ IF s.r # 0
        THEN LET quot == PyDiv(s.q, s.r)
                 t    == s.q - quot * s.r
@@ -80,32 +86,52 @@ EuLoop ==
 \* the operands the loop works on (after the norm-based swap)
 Eq0 == IF s.sw THEN in.r ELSE in.q
 Er0 == IF s.sw THEN in.q ELSE in.r
-EuBezoutInv == (alg = "euclid" /\ pc \in {"loop", "done"}) =>
+EuBezoutInvB == (alg = "euclid" /\ pc \in {"loop", "done"}) =>
                   /\ s.QQ[1] * Eq0 + s.QQ[2] * Er0 = s.q
                   /\ s.RR[1] * Eq0 + s.RR[2] * Er0 = s.r
 \* the common divisors never change
-EuGcdInv == (alg = "euclid" /\ pc \in {"loop", "done"}) =>
+EuGcdInvB == (alg = "euclid" /\ pc \in {"loop", "done"}) =>
                 \A d \in 1..(2 * R + 1) : (Divides(d, s.q) /\ Divides(d, s.r)) <=> (Divides(d, in.q) /\ Divides(d, in.r))
 \* the returned triple (with the coefficients swapped back)
 EuG == s.q
 EuA == IF s.sw /\ Bug # "swap_forgot" THEN s.QQ[2] ELSE s.QQ[1]
 EuB == IF s.sw /\ Bug # "swap_forgot" THEN s.QQ[1] ELSE s.QQ[2]
-EuResult == (alg = "euclid" /\ pc = "done") =>
+EuResultB == (alg = "euclid" /\ pc = "done") =>
                 Bezout(EuG, EuA, EuB, in.q, in.r) /\ IsGcd(EuG, in.q, in.r)
 \* the transcription used by the generator computes the same triple
-EuSameAsFunction == (alg = "euclid" /\ pc = "done" /\ Bug = "none") =>
+EuSameAsFunctionB == (alg = "euclid" /\ pc = "done") =>
                         << EuG, EuA, EuB >> = ExtEuclid(in.q, in.r)
 EuDecreases == [][(alg = "euclid" /\ pc = "loop" /\ pc' = "loop") => Abs(s'.r) < Abs(s.r)]_vars
 
 (**************************** fft ******************************************)
-FFTInit == /\ alg = "fft" /\ pc = "start"
+FFTInit == /\ alg = "fft" /\ pc = "start" /\ bug \in Bugs \cap FFTBugs
            /\ \E n \in FFTLens : \E j \in 1..n :
                 LET p == PrimeFrom(97, n) IN
                 in = [n |-> n, p |-> p, w |-> RootFrom(1, n, p), x |-> [i \in 1..n |-> IF i = j THEN 1 ELSE 0]]
            /\ s = << >>
-FFTStep == /\ pc = "start" /\ pc' = "done" /\ UNCHANGED << alg, in >>
+FFTStep == /\ pc = "start" /\ pc' = "done" /\ UNCHANGED << alg, in, bug >>
            /\ s' = CooleyTukeyB(in.x, in.w, in.p, IF Bug \in {"stride", "twiddle"} THEN Bug ELSE "")
-FFTResult == (alg = "fft" /\ pc = "done") => s = DFT(in.x, in.w, in.p)
+FFTResultB == (alg = "fft" /\ pc = "done") => s = DFT(in.x, in.w, in.p)
+
+(**************************** invariants ***********************************)
+\* the algorithm of the code
+PowLoopInv == bug = "none" => PowLoopInvB
+PowResult == bug = "none" => PowResultB
+PowRefusal == bug = "none" => PowRefusalB
+PowCost == bug = "none" => PowCostB
+EuBezoutInv == bug = "none" => EuBezoutInvB
+EuGcdInv == bug = "none" => EuGcdInvB
+EuResult == bug = "none" => EuResultB
+EuSameAsFunction == bug = "none" => EuSameAsFunctionB
+FFTResult == bug = "none" => FFTResultB
+\* negative controls: each of these MUST be reported violated
+Ctl_drop_last == bug = "drop_last" => PowResultB
+Ctl_no_square == bug = "no_square" => PowLoopInvB
+Ctl_accept_negative == bug = "accept_negative" => PowRefusalB
+Ctl_swap_forgot == bug = "swap_forgot" => EuResultB
+Ctl_wrong_T == bug = "wrong_T" => EuBezoutInvB
+Ctl_stride == bug = "stride" => FFTResultB
+Ctl_twiddle == bug = "twiddle" => FFTResultB
 
 (**************************** all together *********************************)
 Init == PowInit \/ EuInit \/ FFTInit
